@@ -19,6 +19,9 @@ for line in sys.stdin:
     elif "/p2extfile." in sig: why = FILEEXT
     elif re.search(r"/(nested>)*(dup-key|dup-key-within-entry|empty-entry|key-only|value-only|value-key|unknown-in-entry)$", sig): why = MAP
     elif re.search(r"/(nested>)*(twice|split-in-two|full-then-empty|empty-then-full)$", sig): why = MERGE
+    elif sig.endswith("/map-entry-shape"): why = MAP
+    elif sig.endswith("/message-merge"): why = MERGE
+    elif sig.endswith("/unsupported-extension-shape"): why = REPEXT + " / " + FILEEXT
     if why is None:
         print("UNTRIAGED:", sig, file=sys.stderr)
         continue
